@@ -376,7 +376,7 @@ func init() {
 			for _, n := range []int{7, 5} {
 				sp := E2Spec{Views: 3, Proposals: "A", WrongPrim: true, WrongPrimAll: true, Bundles: true, NoTimeout: true, MaxDepth: 6, StateCap: 600_000}
 				sc := e2scen(fmt.Sprintf("E2-low-height-N%d-x2-all-proposers", n), n, 2, -1, sp)
-				sc.StartHeight = 0
+				sc.StartHeight, sc.ZeroStart = 0, true
 				sc.Missing, sc.BadTx = map[int][]H{}, map[int][]H{}
 				j = append(j, job(sc, 100))
 			}
